@@ -284,6 +284,24 @@ def compare(case, obs, exp, hang=None):
     for t in oa.get("typed", []) if isinstance(oa.get("typed"), list) else []:
         if t.get("wrong_impl_bad"):
             must.append((["C08"], "typed decoders of other types did not refuse attribute %d as the wrong implementation: %s" % (t["type"], json.dumps(t["wrong_impl_bad"])[:200])))
+    # attribute::<T>() is "first exposed attribute of that type, decoded": absent -> MissingAttribute, else the same
+    # success/failure as decoding that first attribute (the list `typed` holds one entry per exposed attribute)
+    tf = oa.get("typed_first")
+    tl = oa.get("typed") if isinstance(oa.get("typed"), list) else None
+    if isinstance(tf, dict) and tl is not None and "panic" not in tf:
+        for tys, got in tf.items():
+            ty = int(tys)
+            first = next((t for t in tl if t.get("type") == ty), None)
+            fe = first_exposed(ea["exposed"], ty)
+            if fe is None:
+                ok = isinstance(got, dict) and got.get("err") == "MissingAttribute"
+            elif first is None:
+                ok = True      # the exposure mismatch itself is reported above
+            else:
+                ok = (got == "ok") == bool(first.get("ok"))
+            if not ok:
+                must.append((["C02", "C10"], "attribute::<T>() for type %d answered %s; first exposed attribute of that type: %s" % (
+                    ty, json.dumps(got)[:120], "absent" if fe is None else ("decodes" if first and first.get("ok") else "does not decode"))))
     # integrity (C04): expectation = f(plan, oracle)
     if "integrity" in oa and "creds" in case:
         plan = ea["plan"]
